@@ -8,7 +8,9 @@ PROP = "C10"
 def run(tier):
     rep = vlib.Report(PROP, tier)
     binary = vlib.build_harness()
-    common.mc_replay(rep, binary, PROP, "MC_C10", keyf=common.default_key)
+    d, cases, outs = common.mc_replay(rep, binary, PROP, "MC_C10", keyf=common.default_key)
+    # (b) impl -> spec: value-level mutations of the accepted DTLS encodings, compared with the specification's answer
+    common.dfuzz(rep, binary, PROP, cases, 3000 if tier != "thorough" else 60000)
     # (growth) the same Incomplete / Needed contract over a whole run: the streaming consumer of Stream.tla on DTLS records
     common.stream_runs(rep, binary, PROP, ["parse_dtls_plaintext_record"], 3, thorough=(tier == "thorough"))
     return rep.finish("model_checking",
